@@ -3,6 +3,7 @@ module verifharness
 go 1.15
 
 require (
+	github.com/blang/semver v3.5.1+incompatible
 	github.com/oneconcern/datamon v0.0.0
 	github.com/segmentio/ksuid v1.0.4
 	github.com/spf13/afero v1.9.3
